@@ -63,6 +63,7 @@ Next ==
   \/ \E i, j \in DOMAIN chain : i # j /\ \E p \in Splits(chain[i], chain[j]) : \E acc \in BOOLEAN :
         McmcStep(i, j, p[1], p[2], acc) /\ MoveProps(i, j, p) /\ UNCHANGED <<mode, deg0, sizes0>>
   \/ \E wts \in [DOMAIN (chain \o fixed) -> 0..MaxW] : Yield(wts) /\ YieldProps(wts) /\ UNCHANGED <<mode, deg0, sizes0>>
+  \/ Resume /\ UNCHANGED <<mode, deg0, sizes0>>
 Spec == Init /\ [][Next]_vars
 
 (* --- the enumerations used above are exactly the relations the validator uses --- *)
